@@ -251,6 +251,16 @@ impl Writer {
         checksum.inner_mut().get_mut().sync_all()?;
         let checksum = checksum.checksum();
 
+        // IMPORTANT: fsync folder on Unix
+        //
+        // NOTE: Otherwise, after a power loss, the (durable) version may name
+        // a blob file whose directory entry was never persisted
+        #[expect(
+            clippy::expect_used,
+            reason = "the blob file path is always inside the blobs folder"
+        )]
+        crate::file::fsync_directory(self.path.parent().expect("should have folder"))?;
+
         Ok((metadata, checksum))
     }
 }
